@@ -209,10 +209,18 @@ func (env *aareEnv) withLocals(items []Item) *aareEnv {
 			continue
 		}
 		name := strings.TrimSuffix(strings.TrimPrefix(it.VarName, "@{"), "}")
+		vals := append([]string{}, it.Values...)
+		// the reference parser (3.0.8) knows no trailing comment on a variable line: every word after the
+		// values is one more value. Words that can match an executable (paths, variables) are kept as such.
+		for _, w := range strings.Fields(it.Trail) {
+			if strings.HasPrefix(w, "/") || strings.HasPrefix(w, "@{") {
+				vals = append(vals, w)
+			}
+		}
 		if it.VarOp == "=" {
-			n.vars[name] = append([]string{}, it.Values...)
+			n.vars[name] = vals
 		} else {
-			n.vars[name] = append(append([]string{}, n.vars[name]...), it.Values...)
+			n.vars[name] = append(append([]string{}, n.vars[name]...), vals...)
 		}
 	}
 	return n
